@@ -96,7 +96,7 @@ func drawFrameSpec(e *Env) *FrameSpec {
 		hdr = s.Offset + s.FieldLen
 		s.Strip = []int{hdr, 0, s.Offset}[e.P(3)]
 	case fkDelimiter:
-		s.Delim = []string{"$", "\r\n", "ab"}[e.P(3)]
+		s.Delim = []string{"$", "\r\n", "ab", "aab", "--\n", "abac", "aaa"}[e.P(7)]
 		s.StripDelim = e.P(2) == 0
 	case fkFixed:
 		s.Fixed = []int{8, 1, 1024, 1025, 3000}[e.P(5)]
@@ -253,16 +253,42 @@ func containsSeq(p []byte, d string) bool {
 	return false
 }
 
-// delimFree rewrites p so that the delimiter does not occur in it (nor across its end).
+// delimFree rewrites p so that the delimiter occurs in p+delimiter only at the very end: the payload may
+// contain delimiter characters and may end in a proper prefix of the delimiter (the interesting case for
+// decoders that match incrementally), but never the whole sequence.
 //
 //go:norace
 func delimFree(p []byte, d string) []byte {
+	// sprinkle delimiter characters into the payload, deterministically from its content
 	for i := range p {
-		for _, c := range []byte(d) {
-			if p[i] == c {
-				p[i] = 'z'
+		if i > 1 && (int(p[i])+i)%5 == 0 {
+			p[i] = d[(int(p[i])+i)%len(d)]
+		}
+	}
+	if len(p) >= len(d) && len(d) > 1 && p[0]%3 == 0 {
+		copy(p[len(p)-(len(d)-1):], d[:len(d)-1]) // end in the longest proper prefix of the delimiter
+	}
+	for guard := 0; guard < 4*len(p)+8; guard++ {
+		w := append(append([]byte(nil), p...), d...)
+		idx := -1
+		for i := 0; i+len(d) <= len(w); i++ {
+			if string(w[i:i+len(d)]) == d {
+				idx = i
+				break
 			}
 		}
+		if idx < 0 || idx >= len(p) {
+			return p
+		}
+		// break this occurrence by changing one payload byte inside it to a byte foreign to the delimiter
+		k := idx + len(d) - 1
+		if k >= len(p) {
+			k = len(p) - 1
+		}
+		p[k] = 'z'
+	}
+	for i := range p {
+		p[i] = 'z'
 	}
 	return p
 }
